@@ -27,7 +27,7 @@ def ms(us):
 
 def to_bst(kind, value):
     """get_state() value or stored value -> (repr, expiry wall us or None)"""
-    if kind in ('timer', 'inputexp'):
+    if kind in ('timer', 'inputexp', 'vetofsm'):
         state, exp, sdata = value[0], value[1], value[2] if len(value) > 2 else {}
         rep = f"{state}|{sorted((k, repr(v)) for k, v in sdata.items())}"
         return [rep, None if exp is None else ms(exp * 1e6)]
@@ -36,6 +36,20 @@ def to_bst(kind, value):
 
 def c_bst(b):
     return "{| b_repr := %s; b_expiry := %s |}" % (cstr(b[0].replace('"', "'")), copt(b[1], cz))
+
+
+class VetoFSM(edzed.FSM):
+    """a timed state whose timed event can be vetoed by a condition: after a refused expiry the
+    FSM stays in the timed state without a timer"""
+    STATES = ['open', 'closing']
+    EVENTS = [['close', ['open'], 'closing'], ['done', ['closing'], 'open']]
+    TIMERS = {'closing': (2.0, 'done')}
+
+    def cond_done(self):
+        return not self.sdata.get('veto', False)
+
+    def _event_setveto(self, *, value=True, **_data):
+        self.sdata['veto'] = bool(value)
 
 
 def make_block(spec, dest=None):
@@ -56,12 +70,15 @@ def make_block(spec, dest=None):
                               on_enter_expired=edzed.Event(dest, 'entered'), **kw)
     if kind == 'timedate':
         return edzed.TimeDate(name, times='1:00-2:00', utc=True, **kw)
+    if kind == 'vetofsm':
+        return VetoFSM(name, on_enter_open=edzed.Event(dest, 'entered'),
+                       on_enter_closing=edzed.Event(dest, 'entered'), **kw)
     raise ValueError(kind)
 
 
 def key_of(spec):
     cls = {'input': 'Input', 'counter': 'Counter', 'timer': 'Timer', 'inputexp': 'InputExp',
-           'timedate': 'TimeDate'}[spec['kind']]
+           'timedate': 'TimeDate', 'vetofsm': 'VetoFSM'}[spec['kind']]
     return f"<{cls} '{spec['name']}'>"
 
 
@@ -134,7 +151,7 @@ class C06(common.Spec):
                     await task
                 except BaseException:
                     pass
-                obs['steps'].append(dict(step=['failed_start'], snap=self._snap(case, storage)))
+                obs['steps'].append(dict(step=['failed_start'], snap=self._snap(case, storage), t=loop.wall_us()))
                 return
 
             def states():
@@ -148,7 +165,7 @@ class C06(common.Spec):
             st0 = states()
             for spec, s in zip(case['blocks'], st0):
                 fresh[spec['name']] = s
-            obs['steps'].append(dict(step=['init', st0], snap=self._snap(case, storage)))
+            obs['steps'].append(dict(step=['init', st0], snap=self._snap(case, storage), t=loop.wall_us()))
             raw_snaps.append(('init', loop.wall_us(), copy.deepcopy(storage), st0))
             # every top-level event a block handles - external or its own timer - is a step
             depth = [0]
@@ -169,7 +186,7 @@ class C06(common.Spec):
                         if depth[0] == 0:
                             stx = states()
                             obs['steps'].append(dict(step=['event', bi, ok or circuit.error is None, stx[bi]],
-                                                     snap=self._snap(case, storage)))
+                                                     snap=self._snap(case, storage), t=loop.wall_us()))
                             raw_snaps.append(('event', loop.wall_us(), copy.deepcopy(dict(storage)), stx))
                 blk.event = wrapped
             for bi, blk in enumerate(blocks):
@@ -204,7 +221,7 @@ class C06(common.Spec):
             sn = self._snap(case, storage)
             if aborted and sn['ts'] is not None:
                 t_stop = sn['ts']       # the simulation stopped by itself right after the failure
-            obs['steps'].append(dict(step=['stop', ms(t_stop), st], snap=sn))
+            obs['steps'].append(dict(step=['stop', ms(t_stop), st], snap=sn, t=ms(t_stop)))
             raw_snaps.append(('stop', loop.wall_us(), copy.deepcopy(storage), st))
 
         try:
@@ -313,7 +330,7 @@ class C06(common.Spec):
         if obs['harness'] is not None or obs['init'] is None:
             return ("{| pc_cfgs := []; pc_init := {| sn_store := []; sn_stop_ts := None; sn_extra := [] |}; "
                     "pc_init_states_present := false; pc_steps := [(PFailedStart, {| sn_store := []; "
-                    "sn_stop_ts := Some 1%Z; sn_extra := [] |})]; pc_restarts := [] |}")
+                    "sn_stop_ts := Some 1%Z; sn_extra := [] |})]; pc_restarts := []; pc_times := [] |}")
         steps = []
         for s in obs['steps']:
             st = s['step']
@@ -340,8 +357,9 @@ class C06(common.Spec):
                         cfg(b), copt(saved, c_bst), copt(r['before']['ts'], cz), cz(r['now']),
                         c_bst(obs['fresh'].get(b['name'], ['?', None])), c_bst(got), cbool(ent)))
         return ("{| pc_cfgs := %s;\n pc_init := %s; pc_init_states_present := true;\n pc_steps := %s;\n"
-                " pc_restarts := %s |}") % (clist(case['blocks'], cfg), snap(obs['init']),
-                                            clist(steps), clist(restarts))
+                " pc_restarts := %s; pc_times := %s |}") % (
+                    clist(case['blocks'], cfg), snap(obs['init']), clist(steps), clist(restarts),
+                    clist([cz(s_.get('t', 0)) for s_ in obs['steps']]))
 
     def nontrivial(self, case, obs):
         return len(obs['steps']) >= 3 and len(obs['restarts']) >= 1
@@ -364,7 +382,7 @@ class C06(common.Spec):
 
 
 def gen_case(rng):
-    kinds = ['input', 'counter', 'timer', 'inputexp', 'timedate']
+    kinds = ['input', 'counter', 'timer', 'inputexp', 'timedate', 'vetofsm']
     blocks = []
     for i in range(rng.randrange(1, 5)):
         kind = rng.choice(kinds)
@@ -391,6 +409,9 @@ def gen_case(rng):
             ev = rng.choice([['start', {}], ['stop', {}], ['toggle', {}], ['start', {'duration': 4}]])
         elif kind == 'inputexp':
             ev = ['put', {'value': rng.choice([5, 'v', 2.5]), **({'duration': 3} if rng.random() < 0.3 else {})}]
+        elif kind == 'vetofsm':
+            ev = rng.choice([['close', {}], ['close', {}], ['setveto', {'value': True}], ['setveto', {'value': True}],
+                             ['setveto', {'value': False}], ['done', {}]])
         else:
             ev = ['reconfig', rng.choice([{'times': '3:00-4:00'}, {'weekdays': '135'}, {}])]
         events.append([t, bi, ev[0], ev[1]])
